@@ -450,7 +450,7 @@ func joinViews(ctx context.Context, scope *ReferenceScope, view *View, joinView 
 
 	if includeFields != nil {
 		includeIndices := NewUintPool(len(includeFields), LimitToUseUintSlicePool)
-		excludeIndices := NewUintPool(view.FieldLen()-len(includeFields), LimitToUseUintSlicePool)
+		excludeIndices := NewUintPool(len(excludeFields), LimitToUseUintSlicePool)
 		alternatives := make(map[int]int)
 
 		for i := range includeFields {
@@ -469,8 +469,8 @@ func joinViews(ctx context.Context, scope *ReferenceScope, view *View, joinView 
 			alternatives[idx] = eidx
 		}
 
-		fieldIndices := make([]int, 0, view.FieldLen()-excludeIndices.Len())
-		header := make(Header, 0, view.FieldLen()-excludeIndices.Len())
+		fieldIndices := make([]int, 0, view.FieldLen())
+		header := make(Header, 0, view.FieldLen())
 		_ = includeIndices.Range(func(_ int, fidx uint) error {
 			view.Header[fidx].View = ""
 			view.Header[fidx].Number = 0
